@@ -156,6 +156,8 @@ def match_known(known, pid, engine, unit, f):
                 continue
             if k.get('site_contains') and k['site_contains'] not in (f.get('site_text') or ''):
                 continue
+            if k.get('exit_contains') and k['exit_contains'] not in (f.get('exit_text') or ''):
+                continue
             return k
         else:
             if k['harness'] == f.get('harness') and (not k.get('check_contains') or any(k['check_contains'] in c for c in f.get('failed_checks', []))):
@@ -189,6 +191,7 @@ def main():
 
     obligations = 0
     discharged = 0
+    known_failing = 0
     violations = []       # (descr, replay payload)
     known_hits = []
     functions_under_contract = []
@@ -252,9 +255,10 @@ def main():
             for ra in next((it['rule_applications'] for it in prov['items'] if it.get('name') == e['name'] and it['kind'] == 'fn'), []):
                 dropped.append('%s::%s %s x%d: %s -> %s' % (uname, e['name'], ra['rule'], ra['count'], '; '.join(ra['matched'])[:120], ra['replaced_by'][:80]))
             n_failed_here = 0
+            n_known_here = 0
             seen_clause = set()
             for f in fn_fail:
-                keyc = (f['kind'], f['clause_line'], f['site_line'])
+                keyc = (f['kind'], f['clause_line'], f['site_line'], f.get('exit_text'))
                 if keyc in seen_clause:
                     continue
                 seen_clause.add(keyc)
@@ -262,16 +266,21 @@ def main():
                 k = match_known(known, pid, 'verus', uname, f)
                 if k:
                     known_hits.append(k)
+                    n_known_here += 1
                     continue
                 lost = [h for h in hints_lost if h[0] == e['name']]
                 if lost:
                     undecided.append('unit %s: %s: obligation failed after a proof hint lost its anchor (%s): undecided' % (uname, e['name'], lost[0][1]))
                     continue
                 violations.append(dict(engine='verus', unit=uname, function=e['name'], src=e['src'], src_lines=e['src_lines'],
-                                       obligation=dict(kind=f['kind'], clause=f['clause_text'], tags=f['tags'], call_site=f['site_text']),
+                                       obligation=dict(kind=f['kind'], clause=f['clause_text'], tags=f['tags'], call_site=f['site_text'], at_exit=f.get('exit_text')),
                                        verifier_output=f['rendered'], generated_file=prov['generated'],
                                        provenance=[it for it in prov['items'] if it.get('name') == e['name']][:1]))
-            discharged += max(0, n_obl - min(n_obl, n_failed_here))
+            # obligations recorded as known findings are reported separately and not counted as attempted
+            kn = min(n_known_here, n_obl)
+            obligations -= kn
+            known_failing += kn
+            discharged += max(0, (n_obl - kn) - min(n_obl - kn, n_failed_here - n_known_here))
             if len(samples) < 6 and mine:
                 a, b = e['gen_lines']
                 # write out one obligation
@@ -343,6 +352,7 @@ def main():
             bounded_parts=P.get('bounded', []),
             canary_functions_failing_as_required=canary_ok,
             known_findings=[k['what'] for k in known_hits],
+            known_failing_obligations_excluded_from_counts=known_failing,
             undecided=undecided,
             failing_obligations_of_other_properties_in_shared_units=other_failures,
             not_covered=P.get('not_covered', ''),
